@@ -11,9 +11,9 @@ import (
 func init() { register("C25", propC25) }
 
 func propC25(c *Check) {
-	c.Explain = "Decides the exact-sum and share clauses of mint construction only: in buildUniversalMintTransaction (1) the mint input carries the batch amount returned by checkUniversalMintPossibility; (2) every kernel-node output of amount m.Work is paired, in the same iteration, with total = total.Add(m.Work) (accumulator shape: no output without accounting); (3) the custodian output of amount safe = amount.Div(10).Mul(4) is followed by total = total.Add(safe); (4) the last output's amount is amount.Sub(total) for that final total, so the outputs sum to the batch amount by construction, and there are exactly these three output sites; (5) the kernel share handed to distributeKernelMintByWorks is amount.Div(10).Mul(5) (five tenths, rounded down per tenth); (6) both 'total > amount => panic' assertions remain; (7) mintMultiBatchesSize is the accumulator of mintBatchSize(i) over i = old+1 .. batch (inclusive), panicking when old >= batch; (8) distributeKernelMintByWorks: the per-node clamp of the work against avg*7 / avg / avg/7 is interpreted from its SSA fragment with an exact-integer model and is non-decreasing in the raw work for avg 1..40, w 0..45*avg+10, and the final share is work.Ration(totalW).Product(base) with one totalW and base for all nodes; (9) mintBatchSize: the pool is seeded with MintPool, every elapsed year (i = 0 .. batch/D - 1) performs pool = pool.Sub(MintYearPercent.Product(pool)), the result is MintYearPercent.Product(pool).Div(D) with the same constant D, MintYearPercent = NewInteger(a).Ration(NewInteger(b)) with 0 <= a <= b and MintPool > 0 are stored only by the package initialiser: hence batch sizes never increase and D batches of a year spend at most that year's reduction of the pool (telescoping bound by MintPool)."
+	c.Explain = "Decides the exact-sum and share clauses of mint construction only: in buildUniversalMintTransaction (1) the mint input carries the batch amount returned by checkUniversalMintPossibility; (2) every kernel-node output of amount m.Work is paired, in the same iteration, with total = total.Add(m.Work) (accumulator shape: no output without accounting); (3) the custodian output of amount safe = amount.Div(10).Mul(4) is followed by total = total.Add(safe); (4) the last output's amount is amount.Sub(total) for that final total, so the outputs sum to the batch amount by construction, and there are exactly these three output sites; (5) the kernel share handed to distributeKernelMintByWorks is amount.Div(10).Mul(5) (five tenths, rounded down per tenth); (6) both 'total > amount => panic' assertions remain; (7) mintMultiBatchesSize is the accumulator of mintBatchSize(i) over i = old+1 .. batch (inclusive), panicking when old >= batch; (8) distributeKernelMintByWorks: the per-node clamp of the work against avg*7 / avg / avg/7 is interpreted from its SSA fragment with an exact-integer model and is non-decreasing in the raw work for avg 1..40, w 0..45*avg+10, and the final share is work.Ration(totalW).Product(base) with one totalW and base for all nodes; (9) mintBatchSize: the pool is seeded with MintPool, every elapsed year (i = 0 .. batch/D - 1) performs pool = pool.Sub(MintYearPercent.Product(pool)), the result is MintYearPercent.Product(pool).Div(D) with the same constant D, MintYearPercent = NewInteger(a).Ration(NewInteger(b)) with 0 <= a <= b and MintPool > 0 are stored only by the package initialiser: hence batch sizes never increase and D batches of a year spend at most that year's reduction of the pool (telescoping bound by MintPool); (10) poolSizeUniversal, the reported remaining pool, replays the same schedule: same pool accumulator, mint = mint.Add(MintYearPercent.Product(pool)) every elapsed year, and every year/day constant equal to the year length of mintBatchSize."
 	c.NotCov = "NOT DECIDED (numeric facts over all batches / work vectors): positivity of every share; monotone non-increase of batch sizes and the pool bound are decided only through the shape of mintBatchSize (rule 9), assuming RationalNumber.Product and Integer.Div are monotone in their first argument; work-monotonicity is decided for the clamp (finite evaluation, avg 1..40) and the order-preserving shape of the final share, not for the big-integer rounding of Ration/Product."
-	c.Floor(15)
+	c.Floor(18)
 	f := c.F("(*kernel.Node).buildUniversalMintTransaction")
 	if f != nil {
 		poss := Call("(*kernel.Node).checkUniversalMintPossibility", Param("node"), Param("timestamp"), Param("validateOnly"))
@@ -173,6 +173,29 @@ func propC25(c *Check) {
 		}
 		c.Require(okRet && len(rets) == 1, "shape", shortName(g)+"|batch = percent*pool/D", "the batch size is MintYearPercent.Product(pool).Div(D) of the pool left after the reductions (monotone in the pool)", "return expression changed")
 		c.Require(yearDiv > 0 && yearDiv == dayDiv, "agreement", shortName(g)+"|year length == daily divisor", "the constant dividing the batch number into years equals the constant dividing the yearly amount into batches (D batches spend at most one yearly amount, so the cumulative total telescopes below the pool)", fmt.Sprintf("year length %d, daily divisor %d", yearDiv, dayDiv))
+		// sibling: poolSizeUniversal (the reported remaining pool) replays the same schedule
+		if h := c.F("kernel.poolSizeUniversal"); h != nil {
+			consts, nconst := true, 0
+			eachInstr(h, func(b *ssa.BasicBlock, ins ssa.Instruction) {
+				switch x := ins.(type) {
+				case *ssa.BinOp:
+					if (x.Op == token.QUO || x.Op == token.REM) && Param("batch")(x.X) {
+						nconst++
+						consts = consts && constOf(x.Y) == yearDiv
+					}
+				case *ssa.Call:
+					if Call("(common.Integer).Div", AnyV, AnyV)(x) {
+						nconst++
+						consts = consts && constOf(x.Call.Args[1]) == yearDiv
+					}
+				}
+			})
+			hl := c.ForLoop(h, "years", Bin(token.LSS, PhiNamed("i"), Bin(token.QUO, Param("batch"), AnyV)))
+			year := func(self VM) VM { return Call("(common.RationalNumber).Product", percent, self) }
+			c.Accumulator(h, hl, "pool", func(self VM) VM { return Call("(common.Integer).Sub", self, year(self)) }, "pool = pool.Sub(MintYearPercent.Product(pool))")
+			c.Accumulator(h, hl, "mint", func(self VM) VM { return Call("(common.Integer).Add", self, year(PhiNamed("pool"))) }, "mint = mint.Add(MintYearPercent.Product(pool))")
+			c.Require(consts && nconst >= 3, "agreement", shortName(h)+"|same year length as mintBatchSize", "every year/day constant of poolSizeUniversal (batch/D, batch%D, year.Div(D)) equals the year length of mintBatchSize, so the reported pool follows the schedule that is minted", fmt.Sprintf("constants agree=%v sites=%d (mintBatchSize uses %d)", consts, nconst, yearDiv))
+		}
 		// the constants: MintYearPercent = NewInteger(a).Ration(NewInteger(b)) with 0 <= a <= b, stored
 		// only by the package initialiser; MintPool likewise stored only there.
 		okPct, stores := false, 0
